@@ -475,7 +475,7 @@ class C11(PropBase):
             "files with 10..40 FUNCs and up to 20 PUBLICs; module bases 0, 0x1000, 2^63, 2^64-1-k; the measured distribution (records per kind, overlap classes, "
             "inline depth, PUBLIC/FUNC adjacency, where the queries fall) is in input_distribution.measured. "
             "Round 5: 1 file in 6 has payload fields (parameter sizes, line numbers, call lines) at 0 / 2^31 / u32::MAX; 1 file in 5 is spelled in another text style "
-            "(CRLF line ends, upper-case hex, a leading zero on hex fields: item Y, rendered identically by the harness and by the model's own renderer); every file is "
+            "(CRLF line ends, upper-case hex, a leading zero on hex fields, space-tab-space between fields: item Y, rendered identically by the harness and by the model's own renderer); every file is "
             "additionally re-parsed by the harness as two twins (INLINE ranges of each FUNC block permuted; FILE / INLINE_ORIGIN lines moved to the end) whose tables and "
             "callbacks must be identical (field X, oracle only); the extracted model answers every case twice, from the records and from the text (C09's recogniser + finish), "
             "and both must agree with the real code. "
@@ -889,8 +889,9 @@ class C11(PropBase):
                 items = self.extremes(rng, items)
                 kind += "+extreme_payloads"
             if rng.chance(1, 5):
-                # the same records in another spelling: CRLF line ends (1), upper-case hex (2), a leading zero on hex fields (4)
-                items = [("Y", rng.range(1, 7))] + items
+                # the same records in another spelling: CRLF line ends (1), upper-case hex (2), a leading zero on hex fields (4),
+                # space-tab-space between the fields (8)
+                items = [("Y", rng.range(1, 15))] + items
                 kind += "+text_style"
             extra = self.gen_modules(rng, mb, msize) if rng.chance(1, 2) else []
             if extra:
